@@ -253,9 +253,16 @@ func (s *jsession) exec(op string) string {
 	s.script = append(s.script, op)
 	t := strings.Fields(op)
 	switch t[0] {
-	case "item":
+	case "item", "itemat":
 		if s.busy != nil || s.st == "done" {
 			return "bad-op"
+		}
+		if t[0] == "itemat" {
+			// the element arrives `e` after passAt (no ticker firing in between)
+			e, _ := strconv.ParseInt(t[1], 10, 64)
+			s.setPassAt(time.Now().Add(-time.Duration(e)))
+			s.paBefore = s.getPassAt()
+			t = t[1:]
 		}
 		id, _ := strconv.Atoi(t[1])
 		var xs []int
@@ -267,7 +274,13 @@ func (s *jsession) exec(op string) string {
 		}
 		s.inputs[id] = xs
 		s.consumed = append(s.consumed, append([]int(nil), xs...))
+		hadBuf := len(s.buffer()) > 0
+		paWas := s.getPassAt()
+		nOut := len(s.outs)
 		s.call(func() { s.process(id, xs) })
+		if hadBuf && len(s.outs) == nOut && !s.getPassAt().Equal(paWas) {
+			s.fail("C10 accepting an element reset the timeout timer although older elements stay buffered (they can be delayed beyond Timeout)")
+		}
 	case "tick":
 		if s.busy != nil || s.st == "done" || s.timeout <= 0 {
 			return "bad-op"
